@@ -240,7 +240,7 @@ Definition StepOK (a : ast) : Prop :=
 Lemma step_const v : StepOK (AConst v).
 Proof.
   intros env am cm st offs size cs F W. cbn [ref_step gen_step fst snd].
-  split; [constructor; apply fo_vrel; exact W|apply same_below_refl].
+  split; [constructor; apply cwf_vrel; exact W|apply same_below_refl].
 Qed.
 
 Lemma step_ident x : StepOK (AIdent x).
@@ -534,3 +534,83 @@ Theorem exec_sim_lemma : forall known fuel a env am cm st offs size cs,
 Proof. intros known fuel a env am cm st offs size cs. apply exec_sim_at. Qed.
 
 Print Assumptions exec_sim_lemma.
+
+(* ---------- Generate + Eval on an argument tuple ---------- *)
+
+(* the program as a closure over nothing: well-formed programs are related to themselves *)
+Lemma program_closure argnames a :
+  wf (map Some argnames) [] a -> vrel (VClo argnames a [] []) (VClo argnames a [] []).
+Proof.
+  intros W. constructor; auto. cbn. discriminate.
+Qed.
+
+Theorem C01_from_ast_lemma : forall known fuel a argnames args1 args2,
+  wf (map Some argnames) [] a ->
+  gen_check (S (ast_size a)) (map Some argnames) [] a = true ->
+  Forall2 vrel args1 args2 -> length args2 = length argnames ->
+  orel (eval known fuel (combine argnames args1) a) (run known fuel a argnames args2).
+Proof.
+  intros known fuel a argnames args1 args2 W G Ha L.
+  unfold run. rewrite L, Nat.eqb_refl. cbn [negb]. rewrite G.
+  pose proof (sim_app _ _ (exec_sim_at known fuel) _ _ _ _ (program_closure _ _ W) Ha) as Hs.
+  cbn [r_app g_app self_binding clo_cm clo_cs map app] in Hs.
+  rewrite (Forall2_length' _ _ _ Ha), L, Nat.eqb_refl, app_nil_r in Hs. exact Hs.
+Qed.
+
+(* first-order argument tuples: the same tuple on both sides *)
+Theorem C01_from_ast_fo_lemma : forall known fuel a argnames args,
+  wf (map Some argnames) [] a ->
+  gen_check (S (ast_size a)) (map Some argnames) [] a = true ->
+  forallb fo args = true -> length args = length argnames ->
+  orel (eval known fuel (combine argnames args) a) (run known fuel a argnames args).
+Proof.
+  intros known fuel a argnames args W G Hf L. apply C01_from_ast_lemma; auto.
+  clear L. induction args as [|v args IH]; simpl in *; auto.
+  apply andb_true_iff in Hf. destruct Hf. constructor; auto. apply fo_vrel; auto.
+Qed.
+
+(* what the caller of the generated function observes *)
+Definition out_rel (o1 o2 : outcome) : Prop :=
+  match o1, o2 with
+  | OVal v1, OVal v2 => vrel v1 v2
+  | OErr t1, OErr t2 => t1 = t2 \/ t1 = None \/ t2 = None
+  | OSkip, OSkip => True
+  | _, _ => False
+  end.
+
+Lemma orel_outcome r1 r2 : orel r1 r2 -> out_rel (outcome_of r1) (outcome_of r2).
+Proof. destruct 1; cbn; auto. Qed.
+
+(* a first-order reference result is reproduced exactly *)
+Lemma orel_fo_eq r1 r2 v : orel r1 r2 -> r1 = Ok v -> fo v = true -> r2 = Ok v.
+Proof.
+  intros O E Hf. destruct O; try discriminate. inversion E; subst.
+  f_equal. symmetry. apply vrel_fo_eq; auto.
+Qed.
+
+(* ---------- a closure call does not depend on where its frame lies ---------- *)
+
+(* calling a closure on the shared storage (frame = the n pushed arguments at any base, whatever
+   lies above or below) and running it on a fresh storage (as the built-in methods do in the
+   model) give results related to one and the same reference result: the same kind of outcome,
+   the same thrown text, and values that are related to a common reference value (equal when that
+   value is first-order, see orel_fo_eq). *)
+Theorem call_frame_independent_lemma : forall known fuel ps b c1 c2 s1 s2 vs1 vs2 stk base,
+  vrel (VClo ps b c1 s1) (VClo ps b c2 s2) ->
+  Forall2 vrel vs1 vs2 -> length vs2 = length ps ->
+  base + length ps <= length stk -> pushedv stk base vs2 ->
+  let r := r_app (eval known fuel) (VClo ps b c1 s1) vs1 in
+  orel r (fst (g_call (exec known fuel) (VClo ps b c2 s2) (length ps) stk base)) /\
+  orel r (g_app (exec known fuel) (VClo ps b c2 s2) vs2) /\
+  same_below (base + length ps) stk
+             (snd (g_call (exec known fuel) (VClo ps b c2 s2) (length ps) stk base)).
+Proof.
+  intros known fuel ps b c1 c2 s1 s2 vs1 vs2 stk base Hc Hvs L Hb Hp r.
+  destruct (sim_call _ _ (exec_sim_at known fuel) ps b c1 c2 s1 s2 vs1 vs2 stk base Hc Hvs L Hb Hp)
+    as [O S].
+  split; [exact O|]. split; [|exact S].
+  apply (sim_app _ _ (exec_sim_at known fuel)); auto.
+Qed.
+
+Print Assumptions C01_from_ast_lemma.
+Print Assumptions call_frame_independent_lemma.
